@@ -27,6 +27,16 @@ func (e *Exec) symbolicArgs(st *State, fn *ssa.Function) []*Value {
 // safety obligations are generated according to the contract's mode.
 func (e *Exec) VerifyFunc(fn *ssa.Function, ct *Contract, setup func(st *State, args []*Value, env *SpecEnv)) {
 	name := shortName(fn)
+	// the contract must still fit the code (names it mentions exist, its clauses evaluate): if it does not, that is
+	// an undecided obligation of this function, not a failure of the whole property's generator
+	applies := &Obligation{Name: name + "/contract-applies", Kind: "post", Expect: "unsat", Backend: "generator", Func: fn.String(), Meta: map[string]string{}, Status: "discharged", Output: "every clause of the contract evaluates on the current code"}
+	e.obls = append(e.obls, applies)
+	defer func() {
+		if r := recover(); r != nil {
+			applies.Status = "undecided"
+			applies.Output = fmt.Sprint("the contract could not be evaluated on the current code: ", r)
+		}
+	}()
 	st := NewState()
 	args := e.symbolicArgs(st, fn)
 	env := e.entryEnv(st, fn, args, nil)
